@@ -21,19 +21,28 @@ EPS = np.finfo(float).eps
 
 
 def problem(rng, cls, nmax, need_steady=False):
+    from ..oracles import AXKIND
     faces, meta = gen.gen_grid(rng, cls, nmin=1, nmax=nmax)
     g = Geom(cls, faces)
     m = gen.build_mesh(pf, cls, faces)
+    capable = [k for k in range(1 if need_steady else 0, g.nd) if AXKIND[cls][k] in ('len', 'ang') and abs(g.w[k][0] - g.w[k][-1]) <= 1e-12 * g.w[k][0]]
+    per = [k for k in capable if rng.random() < 0.3]
     for _ in range(60):
         kinds = None
         if need_steady:
             kinds = {SIDES[0][1]: 'D'}        # at least one Dirichlet side -> steady problem well posed
-        spec = gen.gen_bc_spec(rng, g, kinds=kinds, lams=(1.0, -1.0, 2.5, 0.4))
+        spec = gen.gen_bc_spec(rng, g, kinds=kinds, periodic_axes=per, lams=(1.0, -1.0, 2.5, 0.4))
         if gen.bc_nonsingular(g, spec):
             break
     D, _ = gen.face_arrays(rng, g, 'random', positive=True)
     D = [np.clip(a, 1e-2, 1e2) for a in D]
     u, _ = gen.face_arrays(rng, g, 'sign')
+    for k in per:           # periodic-compatible coefficients
+        for arr in (D[k], u[k]):
+            i0 = [slice(None)] * g.nd
+            i1 = [slice(None)] * g.nd
+            i0[k], i1[k] = 0, -1
+            arr[tuple(i1)] = arr[tuple(i0)]
     tset = str(rng.choice(['D', 'D+upwind', 'D+central', 'D+upwind+src', 'D+src']))
     Df = gen.facevar(pf, m, D)
     mats = [-pf.diffusionTerm(Df)]
@@ -228,6 +237,8 @@ def run_case(case):
             raise KeyError(kind)
     kv = gen.bc_kind_vector(g, spec)
     cov['kind:%s:%s' % (kind, cls)] = 1
+    if spec['periodic']:
+        cov['with_periodic'] = 1
     key = '%s/%s/%s/%s/%s/%s/%s' % (cls, meta['n'], meta['family'], kv, tset, kind, akind)
     sample = {'grid': gen.describe_grid(meta, faces), 'bc': kv, 'terms': tset, 'kind': kind, 'alpha': akind, 'field': ffam}
     if inconclusive and not bad:
@@ -266,7 +277,7 @@ def floors(agg, tier):
             if agg['cov'].get('kind:%s:%s' % (kind, cls), 0) < 4:
                 out.append('kind:%s:%s < 4' % (kind, cls))
     for k, need in (('be_steps', 50), ('fixed_point_steps', 40), ('limit_inf', 15), ('limit_zero', 15), ('explicit_steps', 50), ('consistency', 15),
-                    ('alpha:scalar', 5), ('alpha:ndarray', 5), ('alpha:cellvar', 5)):
+                    ('alpha:scalar', 5), ('alpha:ndarray', 5), ('alpha:cellvar', 5), ('with_periodic', 10)):
         if agg['cov'].get(k, 0) < need:
             out.append('%s < %d' % (k, need))
     return out
